@@ -24,9 +24,12 @@ import (
 	"github.com/aergoio/aergo/v2/chain"
 	"github.com/aergoio/aergo/v2/config"
 	"github.com/aergoio/aergo/v2/consensus"
+	cchain "github.com/aergoio/aergo/v2/consensus/chain"
+	"github.com/aergoio/aergo/v2/consensus/impl/dpos"
 	"github.com/aergoio/aergo/v2/contract"
 	"github.com/aergoio/aergo/v2/contract/system"
 	"github.com/aergoio/aergo/v2/internal/enc/proto"
+	"github.com/aergoio/aergo/v2/mempool"
 	"github.com/aergoio/aergo/v2/pkg/component"
 	"github.com/aergoio/aergo/v2/state"
 	"github.com/aergoio/aergo/v2/types"
@@ -60,23 +63,39 @@ func joinOr(l []string) string {
 // ---------------------------------------------------------------- stub consensus (exported interface only)
 
 type stubCons struct {
-	cs  *chain.ChainService
-	lib uint64          // NeedReorganization(rootNo) = rootNo >= lib   (dpos.Status.NeedReorganization with a LIB)
-	bad map[string]bool // IsBlockValid fails for these block hashes (shared by every node of the run)
+	cs   *chain.ChainService
+	n    *node
+	real *dpos.DPoS      // a DPoS object on the node's chain DB: its real IsConnectedBlock answers
+	lib  uint64          // NeedReorganization(rootNo) = rootNo >= lib   (dpos.Status.NeedReorganization with a LIB)
+	bad  map[string]bool // IsBlockValid fails for these block hashes (shared by every node of the run)
 }
 
 func (s *stubCons) SetStateDB(sdb *state.ChainStateDB)      {}
 func (s *stubCons) IsTransactionValid(tx *types.Tx) bool    { return true }
 func (s *stubCons) VerifyTimestamp(block *types.Block) bool { return true }
-func (s *stubCons) VerifySign(block *types.Block) error     { return nil }
+
+// VerifySign: the harness' blocks are unsigned; a copy that carries a signature is one whose signature does not verify
+// (alter kind 3: the copy differs from the genuine block only in Header.Sign, which the block hash does not cover).
+func (s *stubCons) VerifySign(block *types.Block) error {
+	if len(block.GetHeader().GetSign()) != 0 {
+		return errors.New("scripted: block signature does not verify")
+	}
+	return nil
+}
 func (s *stubCons) IsBlockValid(block *types.Block, best *types.Block) error {
 	if s.bad[string(block.BlockHash())] {
 		return errors.New("scripted: block refused by the consensus")
 	}
 	return nil
 }
-func (s *stubCons) Update(block *types.Block)                    {}
-func (s *stubCons) Save(tx consensus.TxWriter) error             { return nil }
+
+// Update: the calls chain service -> consensus (block executed, rollback to the fork point, restore after a failed
+// roll-forward) are recorded in their order among the other messages and compared with the model.
+func (s *stubCons) Update(block *types.Block) {
+	s.n.updates = append(s.n.updates, tk(block.BlockHash()))
+	s.n.msgs = append(s.n.msgs, "u:"+tk(block.BlockHash()))
+}
+func (s *stubCons) Save(tx consensus.TxWriter) error             { s.n.saves++; return nil }
 func (s *stubCons) NeedReorganization(rootNo types.BlockNo) bool { return rootNo >= s.lib }
 func (s *stubCons) Info() string                                 { return "" }
 func (s *stubCons) GetType() consensus.ConsensusType             { return consensus.ConsensusSBP }
@@ -84,11 +103,8 @@ func (s *stubCons) NeedNotify() bool                             { return true }
 func (s *stubCons) HasWAL() bool                                 { return false }
 func (s *stubCons) IsForkEnable() bool                           { return true }
 
-// as dpos.DPoS.IsConnectedBlock and sbp.SimpleBlockFactory.IsConnectedBlock: the block is in the chain DB
-func (s *stubCons) IsConnectedBlock(block *types.Block) bool {
-	_, err := s.cs.GetBlock(block.BlockHash())
-	return err == nil
-}
+// the real dpos.DPoS.IsConnectedBlock (dpos.go; sbp.SimpleBlockFactory's is the same function) on the node's chain DB
+func (s *stubCons) IsConnectedBlock(block *types.Block) bool { return s.real.IsConnectedBlock(block) }
 func (s *stubCons) MakeConfChangeProposal(req *types.MembershipChange) (*consensus.ConfChangePropose, error) {
 	return nil, consensus.ErrNotSupportedMethod
 }
@@ -118,15 +134,30 @@ func (r *recorder) RequestFuture(m interface{}, timeout time.Duration, tip strin
 	return f
 }
 func (r *recorder) rec(m interface{}) {
+	n := r.n
 	switch x := m.(type) {
 	case *message.MemPoolPut:
-		r.n.puts = append(r.n.puts, tk(x.Tx.GetHash()))
+		n.puts = append(n.puts, tk(x.Tx.GetHash()))
+		n.msgs = append(n.msgs, "p:"+tk(x.Tx.GetHash()))
+		// the real pool takes (or refuses) the transaction now, on the state the earlier messages left it on
+		if n.mp != nil {
+			err := n.mp.VerifPut(types.NewTransaction(x.Tx))
+			n.putErr[tk(x.Tx.GetHash())] = err
+		}
 	case *message.MemPoolDel:
-		r.n.dels = append(r.n.dels, tk(x.Block.BlockHash()))
+		n.dels = append(n.dels, tk(x.Block.BlockHash()))
+		n.msgs = append(n.msgs, "d:"+tk(x.Block.BlockHash()))
+		if n.mp != nil {
+			n.mp.VerifBlockArrival(x.Block)
+		}
 	case *message.SyncStart:
-		r.n.syncs = append(r.n.syncs, fmt.Sprint(x.TargetNo))
+		n.syncs = append(n.syncs, fmt.Sprint(x.TargetNo))
+		n.msgs = append(n.msgs, "s:"+fmt.Sprint(x.TargetNo))
 	case *message.NotifyNewBlock:
-		r.n.notes = append(r.n.notes, tk(x.Block.BlockHash()))
+		n.notes = append(n.notes, tk(x.Block.BlockHash()))
+		n.msgs = append(n.msgs, "n:"+tk(x.Block.BlockHash()))
+	case []*types.Event:
+		n.events += len(x)
 	}
 }
 
@@ -141,10 +172,12 @@ type world struct {
 	nnode   int
 	consBad map[string]bool
 	tmpl    string // directory holding the two store files of a node initialised with the genesis block
+	hf      *config.HardforkConfig // hardfork heights of every node and of the producer
+	gblk    *types.Block
 }
 
-func newWorld(root string) *world {
-	w := &world{root: root, consBad: map[string]bool{}}
+func newWorld(root string, hf *config.HardforkConfig) *world {
+	w := &world{root: root, consBad: map[string]bool{}, hf: hf}
 	seed := vh.NewRng(5) // fixed accounts: the same in every run
 	for i := 0; i < nAcct; i++ {
 		k, _ := btcec.PrivKeyFromBytes(seed.Bytes(32))
@@ -162,6 +195,7 @@ func newWorld(root string) *world {
 	if err := core.InitGenesisBlock(w.genesis(), false); err != nil {
 		panic(err)
 	}
+	w.gblk = core.GetGenesisInfo().Block()
 	core.Close()
 	return w
 }
@@ -201,36 +235,50 @@ type node struct {
 	w       *world
 	cs      *chain.ChainService
 	cons    *stubCons
+	hub     *component.ComponentHub
+	mp      *mempool.MemPool // a real transaction pool fed with the chain service's MemPoolDel / MemPoolPut messages
 	dir     string
 	dels    []string
 	puts    []string
 	syncs   []string
 	notes   []string
+	updates []string         // ChainConsensus.Update calls of the current arrival
+	msgs    []string         // everything above in the order it was sent
+	putErr  map[string]error // what the real pool answered to each MemPoolPut of the current arrival
+	saves   int
+	events  int
 	shifted bool // a sign verification was started and never waited for (results now lag by one block)
 }
 
 func (w *world) newNode(orphanCap, badCap int) *node {
 	w.nnode++
-	n := &node{w: w, dir: filepath.Join(w.root, fmt.Sprintf("n%d", w.nnode))}
+	n := &node{w: w, dir: filepath.Join(w.root, fmt.Sprintf("n%d", w.nnode)), putErr: map[string]error{}}
 	w.initDir(n.dir)
 	cfg := config.NewServerContext("", "").GetDefaultConfig().(*config.Config)
 	cfg.DbType = "memorydb"
 	cfg.DataDir = n.dir
 	cfg.Blockchain.NumWorkers = 1
 	cfg.Blockchain.VerifierCount = 2
+	hf := *w.hf
+	cfg.Hardfork = &hf
 	chain.DfltOrphanPoolSize = orphanCap
 	old := chain.VerifC05SetErrBlocksCap(badCap)
 	n.cs = chain.NewChainService(cfg)
 	chain.VerifC05SetErrBlocksCap(old)
 	chain.DfltOrphanPoolSize = 100
-	n.cons = &stubCons{cs: n.cs, bad: w.consBad}
+	n.cons = &stubCons{cs: n.cs, n: n, bad: w.consBad, real: &dpos.DPoS{ChainDB: n.cs.CDB()}}
 	n.cs.SetChainConsensus(n.cons)
 	hub := component.NewComponentHub()
 	for _, nm := range []string{message.MemPoolSvc, message.RPCSvc, message.P2PSvc, message.SyncerSvc} {
 		hub.Register(&recorder{name: nm, n: n})
 	}
+	n.hub = hub
 	n.cs.SetHub(hub)
 	chain.VerifC05SetSkipMempool(n.cs, true) // "sync" mode: signatures verified with the real key.VerifyTx, no mempool lookups
+	// the pool: what mempool.AfterStart does (state of the best block); it then follows the chain service's messages
+	n.mp = mempool.NewMemPoolService(cfg, n.cs)
+	n.mp.SetHub(hub)
+	n.mp.VerifInit(w.gblk)
 	return n
 }
 
@@ -261,9 +309,26 @@ func (n *node) close() {
 	os.RemoveAll(n.dir)
 }
 
+func (n *node) reset() {
+	n.dels, n.puts, n.syncs, n.notes, n.updates, n.msgs = nil, nil, nil, nil, nil, nil
+	n.putErr = map[string]error{}
+	n.saves = 0
+}
+
 func (n *node) add(b *types.Block) (cls string, msgs string) {
-	n.dels, n.puts, n.syncs, n.notes = nil, nil, nil, nil
+	n.reset()
 	err := chain.VerifC05AddBlock(n.cs, b, "peer")
+	return n.after(b, err)
+}
+
+// addOwn: the block arrives from the node's own block factory together with the block state it was produced on.
+func (n *node) addOwn(b *types.Block, bs *state.BlockState) (cls string, msgs string) {
+	n.reset()
+	err := chain.VerifC05AddOwnBlock(n.cs, b, bs)
+	return n.after(b, err)
+}
+
+func (n *node) after(b *types.Block, err error) (cls string, msgs string) {
 	if err != nil && os.Getenv("VERIF_DEBUG") != "" {
 		fmt.Fprintf(os.Stderr, "add %s/%d: %v\n", tk(b.BlockHash()), b.BlockNo(), err)
 	}
@@ -279,9 +344,21 @@ func (n *node) add(b *types.Block) (cls string, msgs string) {
 	default:
 		cls = "err"
 	}
-	puts := append([]string{}, n.puts...)
-	sort.Strings(puts)
-	return cls, fmt.Sprintf("del=%s put=%s sync=%s notify=%s", joinOr(n.dels), joinOr(puts), joinOr(n.syncs), joinOr(n.notes))
+	// the messages in the order they were sent; MemPoolPuts come out of a Go map: each run of them is sorted
+	seq := append([]string{}, n.msgs...)
+	for i := 0; i < len(seq); {
+		j := i
+		for j < len(seq) && strings.HasPrefix(seq[j], "p:") {
+			j++
+		}
+		if j > i {
+			sort.Strings(seq[i:j])
+			i = j
+		} else {
+			i++
+		}
+	}
+	return cls, "msgs=" + joinOr(seq)
 }
 
 // ---------------------------------------------------------------- producer
@@ -326,7 +403,14 @@ type mblock struct {
 	nonces  [nAcct]uint64
 	txs     []*types.Tx
 	valid   bool // executes on pre, reaches the claimed root, consensus agrees, number = parent's + 1
+	sigBad  bool // the consensus refuses the block signature (VerifySign)
+	verBad  bool // the fork version in the chain id is not the one the hardfork configuration gives for the block's number
+	early   bool // refused by BlockValidator.ValidateBlock (body does not match TxsRootHash): nothing is executed
 	opLine  string
+	ts      int64
+	events  map[string]int // contract address -> events its receipts carry (from the producer's execution)
+	iops    string         // internal operations of the block (from the producer's execution)
+	nerr    int            // receipts with status ERROR (a transaction that failed inside the VM but is included)
 }
 
 func (b *mblock) id() string { return tk(b.hash) }
@@ -337,12 +421,13 @@ type producer struct {
 	gen  *mblock
 	ts   int64
 	rng  *vh.Rng
-	pool map[[2]uint64][]*types.Tx // (sender, nonce) -> transactions made so far (for sharing between branches)
+	pool map[[3]uint64][]*types.Tx // (sender, nonce, fork version) -> transactions made so far (for sharing between branches)
 	cid  []byte
 	seq  int
 	// options of the next make: senders allowed for fresh transactions (nil: all), transactions to take over
 	senders []int
 	want    []*types.Tx
+	deploys int // one transaction in `deploys` is a contract deployment (0: transfers only)
 }
 
 type stubCcc struct{}
@@ -360,7 +445,7 @@ func (w *world) newProducer(rng *vh.Rng) *producer {
 	}
 	g := core.GetGenesisInfo()
 	gb := g.Block()
-	p := &producer{w: w, core: core, ts: g.Timestamp, rng: rng, pool: map[[2]uint64][]*types.Tx{}}
+	p := &producer{w: w, core: core, ts: g.Timestamp, rng: rng, pool: map[[3]uint64][]*types.Tx{}}
 	p.gen = &mblock{name: "G", blk: gb, hash: gb.BlockHash(), no: 0, kind: kValid, valid: true,
 		res: gb.GetHeader().GetBlocksRootHash(), state: gb.GetHeader().GetBlocksRootHash()}
 	return p
@@ -380,6 +465,30 @@ func (p *producer) newTx(from, to int, nonce uint64, amount int64, bi *types.Blo
 		}
 	}
 	return tx
+}
+
+// newDeploy: a contract deployment; with the scripted VM the payload is the script the constructor runs: it emits
+// events, fails inside the VM (the transaction is included with an ERROR receipt), or reports internal operations.
+func (p *producer) newDeploy(from int, nonce uint64, script string, bi *types.BlockHeaderInfo) *types.Tx {
+	tx := &types.Tx{Body: &types.TxBody{
+		Nonce: nonce, Account: p.w.addrs[from], Amount: big.NewInt(0).Bytes(), Payload: []byte(script),
+		GasPrice: big.NewInt(0).Bytes(), Type: types.TxType_DEPLOY, ChainIdHash: bi.ChainIdHash(),
+	}}
+	key.SignTx(tx, p.w.keys[from])
+	if b, err := proto.Encode(tx); err == nil {
+		t2 := &types.Tx{}
+		if proto.Decode(b, t2) == nil {
+			tx = t2
+		}
+	}
+	return tx
+}
+
+var deployScripts = []string{
+	`{"events":2,"sets":[{"k":"a","v":"1"}]}`,
+	`{"err":"vm"}`,
+	`{"events":1,"iops":"{\"op\":\"call\"}"}`,
+	`{"iops":"{\"op\":\"send\"}","sets":[{"k":"b","v":"2"}]}`,
 }
 
 // pickTxs: ntx transfers with the right nonces on this branch; a transaction made earlier for the same
@@ -407,7 +516,7 @@ func (p *producer) pickTxs(parent *mblock, ntx int, bi *types.BlockHeaderInfo, k
 		if p.rng.Chance(1, 2) {
 			var cand []int
 			for _, f := range p.sendersOrAll() {
-				if len(p.pool[[2]uint64{uint64(f), nonces[f] + 1}]) > 0 {
+				if len(p.pool[[3]uint64{uint64(f), nonces[f] + 1, uint64(bi.ForkVersion)}]) > 0 {
 					cand = append(cand, f)
 				}
 			}
@@ -433,14 +542,18 @@ func (p *producer) pickTxs(parent *mblock, ntx int, bi *types.BlockHeaderInfo, k
 			continue
 		}
 		nn := nonces[from] + 1
-		key := [2]uint64{uint64(from), nn}
+		key := [3]uint64{uint64(from), nn, uint64(bi.ForkVersion)}
 		var tx *types.Tx
 		if c := p.pool[key]; len(c) > 0 && p.rng.Chance(1, 3) {
 			tx = c[p.rng.Intn(len(c))]
 		} else {
 			to := (from + 1 + p.rng.Intn(nAcct-1)) % nAcct
 			p.seq++
-			tx = p.newTx(from, to, nn, int64(1+p.seq%997), bi)
+			if p.deploys > 0 && p.rng.Chance(1, p.deploys) {
+				tx = p.newDeploy(from, nn, deployScripts[p.rng.Intn(len(deployScripts))], bi)
+			} else {
+				tx = p.newTx(from, to, nn, int64(1+p.seq%997), bi)
+			}
 			p.pool[key] = append(p.pool[key], tx)
 		}
 		dup := false
@@ -473,7 +586,7 @@ func (p *producer) sendersOrAll() []int {
 // transaction executor on the parent's state and committing the resulting state into the producer's store.
 func (p *producer) make(name string, parent *mblock, ntx int, k kind) *mblock {
 	p.ts += 1000
-	bi := types.NewBlockHeaderInfoFromPrevBlock(parent.blk, p.ts, config.AllEnabledHardforkConfig)
+	bi := types.NewBlockHeaderInfoFromPrevBlock(parent.blk, p.ts, p.w.hf)
 	switch k {
 	case kNoPlus:
 		bi.No = parent.no + 2
@@ -485,7 +598,7 @@ func (p *producer) make(name string, parent *mblock, ntx int, k kind) *mblock {
 	sdb := p.core.VerifC05SDB()
 	bs := state.NewBlockState(sdb.OpenNewStateDB(parent.state), state.SetPrevBlockHash(parent.hash))
 	bs.SetGasPrice(system.GetGasPrice())
-	bs.Receipts().SetHardFork(config.AllEnabledHardforkConfig, bi.No)
+	bs.Receipts().SetHardFork(p.w.hf, bi.No)
 	txs, nonces := p.pickTxs(parent, ntx, bi, k)
 	if k == kBadSig {
 		if len(txs) == 0 {
@@ -514,7 +627,16 @@ func (p *producer) make(name string, parent *mblock, ntx int, k kind) *mblock {
 	}
 	root := append([]byte{}, bs.GetRoot()...)
 	blk := types.NewBlock(bi, root, bs.Receipts(), txs, nil, nil)
-	m := &mblock{name: name, parent: parent, kind: k, pre: parent.state, state: root, nonces: nonces, txs: txs, no: bi.No}
+	m := &mblock{name: name, parent: parent, kind: k, pre: parent.state, state: root, nonces: nonces, txs: txs, no: bi.No, ts: p.ts,
+		events: map[string]int{}, iops: bs.InternalOps()}
+	for _, r := range bs.Receipts().Get() {
+		if r.Status == "ERROR" {
+			m.nerr++
+		}
+		for _, ev := range r.Events {
+			m.events[string(ev.ContractAddress)]++
+		}
+	}
 	m.res = root
 	switch k {
 	case kBadRoot:
@@ -524,6 +646,7 @@ func (p *producer) make(name string, parent *mblock, ntx int, k kind) *mblock {
 	case kBadTxRoot:
 		blk.Header.TxsRootHash = p.rng.Bytes(32)
 		m.res = nil
+		m.early = true
 	case kBadRcpt:
 		blk.Header.ReceiptsRootHash = p.rng.Bytes(32)
 		m.res = nil
@@ -545,33 +668,107 @@ func (p *producer) make(name string, parent *mblock, ntx int, k kind) *mblock {
 		p.w.consBad[string(m.hash)] = true
 	}
 	m.valid = parentValid(parent) && k == kValid
+	m.verBad = types.DecodeChainIdVersion(blk.GetHeader().GetChainID()) != p.w.hf.Version(blk.BlockNo())
 	m.finish()
 	return m
+}
+
+// produce: the block m (made by the producer in its own store as a child of the node's best block) as the node's own
+// block factory produces it: the real BlockGenerator (consensus/chain) gathers m's transactions with the real transaction
+// executor on a block state opened on the node's state DB at its best block, exactly as dpos/sbp do; the result must be
+// the very block m (same header info, same transactions, same state). ok=false: the node's best block is not m's parent.
+// The block state is what travels with the block in message.AddBlock.
+func (n *node) produce(m *mblock) (bs *state.BlockState, ok bool) {
+	best, err := n.cs.GetBestBlock()
+	if err != nil || m.parent == nil || string(best.BlockHash()) != string(m.parent.hash) || m.altered {
+		return nil, false
+	}
+	switch m.kind {
+	case kValid, kCons, kBadRoot, kBadRcpt:
+		// what a block factory can hand over: its block; a block the consensus then refuses; a header whose state root /
+		// receipts root is not the one of the block state that comes with it
+	default:
+		return nil, false
+	}
+	bi := types.NewBlockHeaderInfoFromPrevBlock(best, m.ts, n.w.hf)
+	bs = n.cs.SDB().NewBlockState(best.GetHeader().GetBlocksRootHash(), state.SetPrevBlockHash(best.BlockHash()))
+	bs.SetGasPrice(system.GetGasPrice())
+	bs.Receipts().SetHardFork(n.w.hf, bi.No)
+	var txs []types.Transaction
+	for _, t := range m.txs {
+		txs = append(txs, types.NewTransaction(t))
+		if n.mp != nil {
+			n.mp.VerifPut(types.NewTransaction(t)) // the producer's transactions come out of its pool
+		}
+	}
+	exec := chain.NewTxExecutor(context.Background(), nil, n.cs.CDB(), bi, contract.BlockFactory)
+	gen := cchain.NewBlockGenerator(n.hub, context.Background(), bi, bs, cchain.TxOpFn(exec), false).
+		WithDeco(func(cchain.FetchFn) cchain.FetchFn {
+			return func(component.ICompSyncRequester, uint32) []types.Transaction { return txs }
+		})
+	blk, err := gen.GenerateBlock()
+	if err != nil || blk == nil {
+		return nil, false
+	}
+	if m.kind == kValid && string(blk.BlockHash()) != string(m.hash) {
+		panic(fmt.Sprintf("own block differs from the producer's block %s: %s vs %s (%d/%d txs)", m.name, tk(blk.BlockHash()), tk(m.hash),
+			len(blk.GetBody().GetTxs()), len(m.txs)))
+	}
+	return bs, true
 }
 
 func parentValid(b *mblock) bool { return b != nil && b.valid }
 
 // alter: a copy of b that carries b's identifier but differs in content (lead 5). how: 0 TxsRootHash tampered,
-// 1 last transaction dropped from the body (or a foreign one added), 2 claimed state root tampered.
+// 1 last transaction dropped from the body (or a foreign one added), 2 claimed state root tampered, 3 only Header.Sign
+// differs (not covered by the block hash; the consensus refuses the signature), 4 same number of transactions, one
+// transaction differs in one byte of its body (amount), so the body no longer matches TxsRootHash.
+const nAlter = 5
+
 func (p *producer) alter(b *mblock, how int) *mblock {
 	c := proto.Clone(b.blk).(*types.Block)
 	m := &mblock{name: b.name + "~" + fmt.Sprint(how), parent: b.parent, kind: b.kind, altered: true, pre: b.pre, state: b.state,
-		nonces: b.nonces, no: b.no, hash: b.hash, valid: false}
+		nonces: b.nonces, no: b.no, hash: b.hash, valid: false, ts: b.ts, events: b.events, iops: b.iops, verBad: b.verBad}
 	m.txs = append([]*types.Tx{}, b.txs...)
 	m.res = nil
 	switch how {
 	case 0:
 		c.Header.TxsRootHash = p.rng.Bytes(32)
+		m.early = true
 	case 1:
+		m.early = true
 		if len(c.Body.Txs) > 0 {
 			c.Body.Txs = c.Body.Txs[:len(c.Body.Txs)-1]
 			m.txs = m.txs[:len(m.txs)-1]
 		} else {
 			c.Header.TxsRootHash = p.rng.Bytes(32)
 		}
-	default:
+	case 2:
 		c.Header.BlocksRootHash = p.rng.Bytes(32)
 		m.res = b.res
+	case 3:
+		c.Header.Sign = p.rng.Bytes(64)
+		m.res = b.res
+		m.sigBad = true
+	default:
+		if n := len(c.Body.Txs); n > 0 {
+			t := proto.Clone(c.Body.Txs[n-1]).(*types.Tx)
+			amt := append([]byte{}, t.Body.Amount...)
+			if len(amt) == 0 {
+				amt = []byte{1}
+			} else {
+				amt[len(amt)-1] ^= 0x01
+			}
+			t.Body.Amount = amt
+			t.Hash = t.CalculateTxHash()
+			c.Body.Txs[n-1] = t
+			m.txs[n-1] = t
+			m.early = true
+		} else {
+			c.Header.Sign = p.rng.Bytes(64)
+			m.res = b.res
+			m.sigBad = true
+		}
 	}
 	m.blk = c
 	m.finish()
@@ -590,6 +787,19 @@ func (b *mblock) finish() {
 	if b.kind == kCons {
 		cons = "0"
 	}
-	b.opLine = fmt.Sprintf("add %s %s %d %s %s %s %s %s %s", tk(b.hash), tk(h.GetPrevBlockHash()), h.GetBlockNo(), tk(b.pre), tk(b.res),
-		tk(h.GetBlocksRootHash()), cons, tk(sum[:]), joinOr(txs))
+	fl := ""
+	if b.early {
+		fl = "e"
+	}
+	if b.verBad {
+		fl += "v"
+	}
+	if b.sigBad {
+		fl += "s"
+	}
+	if fl == "" {
+		fl = "-"
+	}
+	b.opLine = fmt.Sprintf("add %s %s %d %s %s %s %s %s %s %s", tk(b.hash), tk(h.GetPrevBlockHash()), h.GetBlockNo(), tk(b.pre), tk(b.res),
+		tk(h.GetBlocksRootHash()), cons, tk(sum[:]), joinOr(txs), fl)
 }
